@@ -198,6 +198,7 @@ func run(v avfs.VFS, o opT) result {
 		r.do("", func(s *sub) error {
 			b, err := v.ReadFile(p)
 			s.Val = fmt.Sprintf("%q", b)
+			fsx.Scribble(b) // a returned slice is the caller's: no file may change with it
 
 			return err
 		})
@@ -249,7 +250,9 @@ func run(v avfs.VFS, o opT) result {
 
 		name()
 		r.do("Write", func(s *sub) error {
-			n, err := fh.Write([]byte("W"))
+			data := []byte("W")
+			n, err := fh.Write(data)
+			fsx.Scribble(data)
 			s.Val = fmt.Sprint(n)
 
 			return err
@@ -279,7 +282,13 @@ func run(v avfs.VFS, o opT) result {
 	case "MkdirAll":
 		errOnly(func() error { return v.MkdirAll(p, 0o750) })
 	case "WriteFile":
-		errOnly(func() error { return v.WriteFile(p, []byte("W"), 0o644) })
+		errOnly(func() error {
+			data := []byte("W")
+			err := v.WriteFile(p, data, 0o644)
+			fsx.Scribble(data)
+
+			return err
+		})
 	case "Remove":
 		errOnly(func() error { return v.Remove(p) })
 	case "RemoveAll":
